@@ -3,19 +3,24 @@
 
    Spec  = coq/Data/Spec*.v, the simple reference model (Redis semantics + documented deviations);
    Map   = coq/Data/Map*.v, the rockredis algorithm over structured engine keys (post-fix working tree).
-   A trace is the list of replies of a command sequence run from the empty store.  Quantifier: all
-   command sequences with strictly increasing positive raft timestamps, both expiry policies
-   (compact = true / false).  The implementation is tied to BOTH models on every check run (three-way
-   comparison impl / Map / Spec over all five types). *)
+   A trace is the list of replies of a command sequence run from the empty store; a write runs at its raft
+   timestamp, a read at the wall clock [now] of the serving node (any value: it is universally quantified).
+   Quantifier: all command sequences with strictly increasing positive raft timestamps, both expiry
+   policies (compact = true: wait_compact / false: local_deletion), TTL commands included.  The
+   implementation is tied to BOTH models on every check run (three-way comparison impl / Map / Spec
+   over all five types). *)
 From ZV Require Import Common.Bytes Data.Consts Data.Base Data.MapEq Data.Map Data.MapL Data.MapK Data.Spec Data.SpecL Data.SpecK Data.Run
-  Data.RepColl Data.RepState Data.RefHS Data.RefCmd Data.RefK Data.RefL Data.MapZ Data.C08Proofs.
+  Data.RepColl Data.RepState Data.RefHS Data.RefCmd Data.RefK Data.RefL Data.MapZ Data.ExpFacts Data.C08Proofs.
 Open Scope Z_scope.
 
 (* the unconditional statement *)
-Definition C08_full : Prop := forall (compact : bool) (cs : list (Z * cmd)),
-  map_trace compact cs m_init = spec_trace cs s_init.
+Definition C08_full : Prop := forall (compact : bool) (now : Z) (cs : list (Z * cmd)),
+  map_trace compact now cs m_init = spec_trace compact now cs s_init.
 
-(* (1) ALL FIVE TYPES, every command of the model — strings SET SETNX GETSET INCR INCRBY APPEND SETRANGE DEL, hashes
+(* (1) ALL FIVE TYPES, every command of the model — the expiry commands SETEX EXPIRE PERSIST TTL, HEXPIRE HPERSIST HTTL,
+   SEXPIRE SPERSIST STTL, ZEXPIRE ZPERSIST ZTTL, LEXPIRE LPERSIST LTTL (Spec: a key whose expiry second is not after
+   the second of a command's clock is absent for that command; declared reply conventions in Data/SpecK.v, Data/Exp.v),
+   strings SET SETNX GETSET INCR INCRBY APPEND SETRANGE DEL, hashes
    HSET HSETNX HMSET HDEL HINCRBY HCLEAR, sets SADD SREM SPOP SCLEAR, sorted sets ZADD ZINCRBY ZREM ZREMRANGEBYRANK
    ZREMRANGEBYSCORE ZREMRANGEBYLEX ZCLEAR, lists LPUSH RPUSH LPOP RPOP LSET LTRIM LCLEAR, and every read (GET MGET
    GETRANGE STRLEN EXISTS; HGET HMGET HEXISTS HLEN HGETALL HKEYS HVALS HKEYEXIST; SCARD SISMEMBER SMEMBERS SRANDMEMBER
@@ -24,17 +29,18 @@ Definition C08_full : Prop := forall (compact : bool) (cs : list (Z * cmd)),
    command by command.  Hypotheses, both explicit in the statement:
      * [short_enough cs]: fewer than (2^61 - 1000) / 5000 (about 4.6e14) commands, so that no list can use up the
        sequence numbers on one side (every command moves head or tail by at most MAX_BATCH_NUM; invariant LBS);
-     * [increasing 0 cs]: needed ONLY under wait_compact, and there only because the generation of a re-created
-       collection is its creation timestamp (see (1b) for local_deletion and C08_full_refuted for equal timestamps). *)
-Theorem C08_all_commands : forall (compact : bool) (cs : list (Z * cmd)),
+     * [increasing 0 cs]: needed ONLY under wait_compact, and there only because the generation of a collection
+       re-created after a clear or after its expiry is the timestamp of the re-creation (see (1b) for local_deletion
+       and C08_full_refuted / C08_equal_timestamps_expiry_refuted for equal timestamps). *)
+Theorem C08_all_commands : forall (compact : bool) (now : Z) (cs : list (Z * cmd)),
   increasing 0 cs -> short_enough cs ->
-  map_trace compact cs m_init = spec_trace cs s_init.
+  map_trace compact now cs m_init = spec_trace compact now cs s_init.
 Proof. exact all_sequences_ref. Qed.
 Print Assumptions C08_all_commands.
 
-(* (1b) local_deletion: the timestamps are irrelevant *)
-Theorem C08_all_commands_local_any_timestamps : forall (cs : list (Z * cmd)),
-  short_enough cs -> map_trace false cs m_init = spec_trace cs s_init.
+(* (1b) local_deletion: the order of the timestamps is irrelevant (positive timestamps in any order, equal ones too) *)
+Theorem C08_all_commands_local_any_timestamps : forall (now : Z) (cs : list (Z * cmd)),
+  positive_ts cs -> short_enough cs -> map_trace false now cs m_init = spec_trace false now cs s_init.
 Proof. exact local_all_sequences_ref. Qed.
 Print Assumptions C08_all_commands_local_any_timestamps.
 
@@ -42,33 +48,40 @@ Print Assumptions C08_all_commands_local_any_timestamps.
    at the timestamp of its creation enumerates the cleared member again (SADD k a; SCLEAR k; SADD k b; SMEMBERS k
    all at ts 5).  Replayed on the Go code with one multi-request list; open finding of C10. *)
 Theorem C08_full_refuted : ~ C08_full.
-Proof. intros H. exact (equal_ts_breaks (H true equal_ts_cs)). Qed.
+Proof. intros H. exact (equal_ts_breaks (H true 0 equal_ts_cs)). Qed.
 Print Assumptions C08_full_refuted.
+
+(* (1d) the same collision reached through expiry: HSET k a 1; HEXPIRE k 0; HSET k b 1; HKEYS k all at ts 5 s: the
+   hash expired in the second of its creation is renewed with the generation it already had and shows field a again *)
+Theorem C08_equal_timestamps_expiry_refuted :
+  map_trace true 0 equal_ts_expire_cs m_init <> spec_trace true 0 equal_ts_expire_cs s_init.
+Proof. exact equal_ts_expire_breaks. Qed.
+Print Assumptions C08_equal_timestamps_expiry_refuted.
 
 (* (2) the resulting data: after such a sequence every stored hash / set / sorted-set record abstracts (as a finite
    map, current generation only) to the Spec value at the same key, every list record abstracts (values at the
-   sequences head..tail) to the Spec list, and the string stores are equal *)
-Theorem C08_all_commands_data : forall (compact : bool) (cs : list (Z * cmd)),
+   sequences head..tail) to the Spec list, with the same expiry second, and the string stores are equal *)
+Theorem C08_all_commands_data : forall (compact : bool) (now : Z) (cs : list (Z * cmd)),
   increasing 0 cs -> short_enough cs ->
-  simS compact (last_ts 0 cs) (map_run compact cs m_init) (spec_run cs s_init).
+  simS compact (last_ts 0 cs) (map_run compact now cs m_init) (spec_run compact now cs s_init).
 Proof.
-  intros compact cs I Sh.
-  exact (proj2 (trace_ref compact cs 0 0 m_init s_init (simS_init compact) (Z.le_refl 0) I (LBS_init) (Z.le_refl 0) Sh)).
+  intros compact now cs I Sh.
+  exact (proj2 (trace_ref compact now cs 0 0 m_init s_init (simS_init compact) (Z.le_refl 0) I (LBS_init) (Z.le_refl 0) Sh)).
 Qed.
 Print Assumptions C08_all_commands_data.
 
 (* (3) one step, from any related pair of states (incl. failing commands) *)
-Theorem C08_step : forall (compact : bool) (clock ts : Z) (c : cmd) (bnd : Z) (ms : mstate) (ss : sstate),
+Theorem C08_step : forall (compact : bool) (clock now ts : Z) (c : cmd) (bnd : Z) (ms : mstate) (ss : sstate),
   simS compact clock ms ss -> 0 <= clock < ts ->
   LBS bnd ms -> 0 <= bnd -> bnd + max_batch_num < seq_room ->
-  snd (map_step compact ts c ms) = snd (spec_step c ss) /\
-  simS compact ts (fst (map_step compact ts c ms)) (fst (spec_step c ss)).
+  snd (map_step compact now ts c ms) = snd (spec_step compact now ts c ss) /\
+  simS compact ts (fst (map_step compact now ts c ms)) (fst (spec_step compact now ts c ss)).
 Proof. exact step_ref. Qed.
 Print Assumptions C08_step.
 
-(* (4) strings: the two models are literally the same function on duplicate-free stores *)
-Theorem C08_kv : forall (ts : Z) (c : kcmd) (m : list (bytes * bytes)),
-  NoDup (map fst m) -> MapK.kstep ts c m = SpecK.kstep c m.
+(* (4) strings: the two models are the same function on duplicate-free stores, for every policy and timestamp *)
+Theorem C08_kv : forall (compact : bool) (ts : Z) (c : kcmd) (m : kstore),
+  NoDup (map fst m) -> MapK.kstep compact ts c m = SpecK.kstep compact ts c m.
 Proof. exact kstep_ref. Qed.
 Print Assumptions C08_kv.
 
@@ -103,6 +116,12 @@ Theorem C08_spec_index_rule_empty : forall len start stop, SpecL.norm_range len 
 Proof. exact spec_norm_range_empty. Qed.
 Print Assumptions C08_spec_index_rule_empty.
 
+(* expiry in the reference model: clocks do not go back, an expired key stays expired *)
+Theorem C08_spec_expired_stays_expired : forall compact e t t', 0 < t <= t' ->
+  dead compact e t = true -> dead compact e t' = true.
+Proof. exact dead_mono. Qed.
+Print Assumptions C08_spec_expired_stays_expired.
+
 (* ---------- non-vacuity ---------- *)
 Local Open Scope N_scope.
 Definition kk : bytes := [116; 58; 107].
@@ -125,8 +144,29 @@ Definition ex_cs8 : list (Z * cmd) :=
     (17, QZ kk (ZQrange false 0 (-1) true)) ].
 Example C08_ex_admissible : increasing 0 ex_cs8 /\ short_enough ex_cs8.
 Proof. split; [cbn; repeat split; reflexivity|]. vm_compute. reflexivity. Qed.
-Example C08_ex_trace : spec_trace ex_cs8 s_init =
+Example C08_ex_trace : spec_trace true 0 ex_cs8 s_init =
   [RNil; RInt 10; RInt 2; RInt 1; RInt 1; RInt 10; RInt 1; RInt 3; RNil; RInt 2; RFloat (SFin 1); RInt 1;
    RArr [RBulk ba; RBulk [49; 48]%N]; RArr [RBulk bb]; RBulk [49; 48]%N; RArr [RBulk bb; RBulk ba];
    RArr [RBulk ba; RFloat (SFin 1)]].
+Proof. vm_compute. reflexivity. Qed.
+
+(* TTL commands (wait_compact; timestamps in ns, read clock 100 s): a hash with a 5 s expiry set at second 1 is
+   present for the write at second 3 (which keeps the expiry), absent for the write at second 7 (which starts a
+   fresh hash without expiry); HDEL on the expired hash replies 0; a string with SETEX 2 at second 8 is gone
+   for the reader at second 100; PERSIST keeps the list *)
+Definition sec (n : Z) : Z := n * 1000000000.
+Definition ex_ttl : list (Z * cmd) :=
+  [ (sec 1, CHset false kk ba b1); (sec 1 + 1, CExpire TH kk 5);
+    (sec 3, CHset false kk bb b1); (sec 3 + 1, QTtl TH kk);
+    (sec 7, CHdel kk [ba]); (sec 7 + 1, CHset false kk b9 b9); (sec 7 + 2, QHkeys kk); (sec 7 + 3, QTtl TH kk);
+    (sec 8, CK (KCsetex kk 2 b1)); (sec 8 + 1, QK (KQget kk));
+    (sec 9, CL kk (LCpush true [ba])); (sec 9 + 1, CExpire TL kk 1); (sec 9 + 2, CPersist TL kk);
+    (sec 12, QL kk LQlen) ].
+Example C08_ex_ttl_admissible : increasing 0 ex_ttl /\ short_enough ex_ttl.
+Proof. split; [cbn; repeat split; reflexivity|]. vm_compute. reflexivity. Qed.
+Example C08_ex_ttl_trace : spec_trace true (sec 100) ex_ttl s_init =
+  [RInt 1; RInt 1; RInt 1; RInt (-1); RInt 0; RInt 1; RArr [RBulk b9]; RInt (-1); RNil; RNil; RInt 1; RInt 1; RInt 1; RInt 1].
+Proof. vm_compute. reflexivity. Qed.
+(* the same sequence read at second 4: the TTL of the hash is visible, the string is not yet written *)
+Example C08_ex_ttl_clock : spec_trace true (sec 4) (firstn 4 ex_ttl) s_init = [RInt 1; RInt 1; RInt 1; RInt 2].
 Proof. vm_compute. reflexivity. Qed.
